@@ -176,12 +176,27 @@ fn main() {
         PANICS.lock().unwrap().push((loc, msg));
     }));
     let n = cli.cases(30_000, 300_000);
+    // `start`: resume after a case that took the whole process down (see the breadcrumb below)
+    let start = cli.param_u64("start", 0);
+    let crumb_path = cli.out.as_ref().map(|o| format!("{}.current", o));
     for idx in cli.index_range(n) {
+        if idx < start && cli.replay_index.is_none() {
+            continue;
+        }
         let mut rng = Rng::for_case(cli.seed, cli.shard, idx);
         let (boxes, fam) = gen_set(&mut rng);
         rep.eval();
         rep.count(&format!("family/{}", fam));
         let polys: Vec<Vec<geom::P>> = boxes.iter().map(poly).collect();
+        // breadcrumb: geo's sweep can run away (unbounded allocation) instead of panicking; the process then dies on its
+        // address-space limit, which no catch_unwind sees. The orchestrator reads this file to name the input, records the
+        // observation and resumes the shard after it.
+        if !fam.starts_with("integer-grid") && !fam.starts_with("axis-aligned") {
+            if let Some(pth) = &crumb_path {
+                let _ = std::fs::write(pth, json!({"index": idx, "family": fam, "near_coincident_edges": has_near_coincident_edges(&polys),
+                    "boxes[xc,yc,angle,aspect,h]": boxes.iter().map(js).collect::<Vec<_>>()}).to_string());
+            }
+        }
         let case = || json!({"family": fam, "boxes[xc,yc,angle,aspect,h]": boxes.iter().map(js).collect::<Vec<_>>()});
         let shares = match run(&boxes) {
             Ok(s) => s,
